@@ -408,6 +408,35 @@ pub fn ring_poly_divrem(s: &mut Src) -> R {
     Ok(())
 }
 
+// ------------------------------------------------------------------ homogeneous polynomials c x^d
+// (witness search / replay for the Verus unit `hpoly`)
+pub fn ring_hpoly_ops(s: &mut Src) -> R {
+    use yui::poly::HPoly;
+    type F = FF<5>;
+    type H = HPoly<'H', F>;
+    let (d1, c1, d2, c2) = (s.small(0, 6) as usize, s.small(0, 4) as i32, s.small(0, 6) as usize, s.small(0, 4) as i32);
+    reach!();
+    let (a, b) = (H::new(d1, F::new(c1)), H::new(d2, F::new(c2)));
+    let same = (c1 == 0 && c2 == 0) || (c1 != 0 && c2 != 0 && d1 == d2 && c1 == c2);
+    ob!((a == b) == same, "HPoly::eq-iff-same-polynomial");
+    ob!(a.is_zero() == (c1 == 0), "HPoly::is_zero");
+    let p = &a * &b;
+    ob!(p == H::new(d1 + d2, F::new(c1 * c2)), "HPoly::mul-adds-degrees-multiplies-coefficients");
+    ob!(-&a == H::new(d1, F::new(-c1)), "HPoly::neg");
+    if c2 != 0 {
+        let (q, r) = a.div_rem(&b);
+        ob!(&(&q * &b) + &r == a, "HPoly::div_rem::a==q*b+r");
+        ob!(r.is_zero() || r.deg() < b.deg(), "HPoly::div_rem::remainder-degree-smaller");
+    }
+    if c1 == 0 || c2 == 0 || d1 == d2 {
+        ob!(&a + &b == if c1 == 0 { b.clone() } else if c2 == 0 { a.clone() } else { H::new(d1, F::new(c1 + c2)) }, "HPoly::add");
+        ob!(&(&a + &b) - &b == a, "HPoly::(a+b)-b==a");
+    }
+    ob!(a.is_unit() == (d1 == 0 && c1 != 0) && a.is_unit() == a.inv().is_some(), "HPoly::is_unit-iff-inv");
+    if let Some(w) = a.inv() { ob!(&a * &w == H::one(), "HPoly::a*inv==1"); }
+    Ok(())
+}
+
 crate::harness_table!(RING:
     ring_div_round_i32, ring_div_round_i64, ring_div_round_i128, ring_div_round_const_i64, ring_div_round_const_i32,
     ring_int_units_i32, ring_int_divides_i32, ring_int_units_i64, ring_int_divides_i64,
@@ -416,6 +445,6 @@ crate::harness_table!(RING:
     ring_ff2p_inv [unwind 8], ring_ff3_inv [unwind 8], ring_ff5_inv [unwind 8], ring_ff7_inv [unwind 10], ring_ff46337_inv [unwind 30],
     ring_f2,
     ring_qint_addsub_i32, ring_qint_mul_i32, ring_gauss_units_i32 , ring_eisen_units_i32 [unwind 8], ring_gauss_divrem_i32, ring_eisen_divrem_i32,
-    ring_gauss_gcd [unwind 6], ring_ff5_gcd [unwind 6], ring_ratio_ops [unwind 8], ring_poly_divrem [unwind 8],
+    ring_gauss_gcd [unwind 6], ring_ff5_gcd [unwind 6], ring_ratio_ops [unwind 8], ring_poly_divrem [unwind 8], ring_hpoly_ops,
     ring_qint_addsub_i64, ring_qint_mul_i64, ring_gauss_units_i64, ring_eisen_units_i64 [unwind 8], ring_gauss_divrem_i64, ring_eisen_divrem_i64,
 );
